@@ -4,16 +4,10 @@
 //! exit 1: `VIOLATION property=<id> replay=<path>` printed
 //! exit 2: inconclusive (generator health, watchdog, usage)
 
-mod brokersim;
-mod clientstate;
-mod codec;
-mod commitlog;
-mod engine;
-mod props;
-pub mod topic;
-
-use engine::known::Known;
-use engine::{FoundViolation, Report, Tier};
+use vcheck::engine;
+use vcheck::engine::known::Known;
+use vcheck::engine::{FoundViolation, Report, Tier};
+use vcheck::props;
 use std::path::PathBuf;
 
 fn main() {
